@@ -4,6 +4,19 @@ import defs as D, cmdline_sig, random
 
 
 def corpus(tier):
+    fam = corpus0(tier)
+    # some help texts have a second paragraph: a single `--help` prints the short form, `run()` must print that very
+    # form (the one `run_inner` hands back) and not the detailed one
+    rnd = random.Random(SEED + 113)
+    for d in fam:
+        for lvl in D.all_levels(d):
+            for it in lvl["named"] + lvl["tail"].get("items", []):
+                if rnd.random() < 0.4:
+                    D.more(it, rnd)
+    return fam
+
+
+def corpus0(tier):
     q = tier == "quick"
     return (D.conv_family(SEED + 110, 20 if q else 120, max_named=3, maxlen=3, budget=2000, extras=("dd", "unk", "help", "ver")) +
             D.cmd_family(SEED + 111, 12 if q else 80, maxlen=3, budget=2000, extras=("help", "unk", "ver")) +
